@@ -366,7 +366,17 @@ def run_case(ctx, case, rec, d):
                     uniq = (srt[:, 1] - srt[:, 0] > 1e-6 * (1 + srt[:, 0])) if srt.shape[1] > 1 else np.ones(len(names), bool)
                     ok = np.allclose(b[2], r[2], rtol=1e-9, atol=1e-9) and _close([x[uniq] for x in b], [x[uniq] for x in r], 1e-9)
                 else:
-                    ok = _close(b, r, 1e-12)
+                    # the two sources differ in the last bit of their log fluxes (two ways of taking a logarithm); what that does to (A_V, scale)
+                    # is bounded by the sensitivity of this regression, which the reference measures
+                    ref_ = fitref.fit2d(list(fv), fl, er, logm, k, avlo, avhi)
+                    sens_, cond_ = ref_['sens'], ref_['cond']
+                    if not np.isfinite(cond_) or cond_ > 1e4:
+                        rec.notes['flag4-equivalence-skipped-ill-conditioned'] += 1          # (as in C01: such regressions are outside the quantifier)
+                        ok = True
+                    else:
+                        # normal equations solved through their determinant lose cond^2 * eps: the last-bit difference of the inputs may come back that large
+                        tolp = 1e-12 + 1e-14 * sens_ + 4e-15 * cond_ ** 2
+                        ok = np.allclose(b[2], r[2], rtol=1e-9, atol=1e-9, equal_nan=True) and _close(b[:2], r[:2], tolp) and _close(b[3:], r[3:], 10 * tolp)
                 if not ok:
                     rec.violation('flag4|not-equivalent', sub0, {'mode': mode, 'base_av': b[0], 'flag4_av': r[0], 'base_sc': b[1], 'flag4_sc': r[1], 'base_chi2': b[2], 'flag4_chi2': r[2]})
             # ---- (d) the same Source object re-flagged / re-valued in place between fits must behave like a fresh one
